@@ -940,7 +940,11 @@ class GameCoordinator:
         if agent_addr in self._agent_trajectories:
             agent_name, agent_role = self.agents[agent_addr] 
             os.makedirs(location, exist_ok=True)
-            filename = os.path.join(location, f"{datetime.now():%Y-%m-%d}_{agent_name}_{agent_role}.jsonl")
+            # the name is chosen by the agent: keep the file name a valid, bounded name inside `location`
+            safe_name = re.sub(r"[^\w.-]", "-", str(agent_name))[:48]
+            if safe_name != agent_name:
+                safe_name = f"{safe_name}-{get_str_hash(str(agent_name))[:8]}"
+            filename = os.path.join(location, f"{datetime.now():%Y-%m-%d}_{safe_name}_{agent_role}.jsonl")
             with jsonlines.open(filename, "a") as writer:
                 writer.write(self._agent_trajectories[agent_addr])
             self.logger.info(f"Trajectory of {agent_addr} strored in {filename}")
